@@ -2071,7 +2071,10 @@ impl AnnotationStore {
                         if strict {
                             self.remove_annotation_if_present(a_handle)?;
                         } else {
-                            let annotation = self.get_mut(a_handle)?;
+                            //the removal of an annotation earlier in this loop may have cascaded to this one already
+                            let Ok(annotation) = self.get_mut(a_handle) else {
+                                continue;
+                            };
                             let prelen = annotation.raw_data().len();
                             annotation.remove_data(set_handle, data_handle);
                             let postlen = annotation.raw_data().len();
